@@ -32,7 +32,7 @@ import (
 
 type caller struct {
 	isCaller bool
-	phase    int // 0 at build's Store, 1 at Call:Get (select), 2 at the final Store
+	inAsk    bool // the build step of the current Ask has been executed
 	ch       chan any
 	cancel   context.CancelFunc
 	deadline bool
@@ -44,7 +44,9 @@ func run(line string) string {
 	if len(parts) != 3 || len(cfg) != 2 || cfg[0] != "ask" || (cfg[1] != "asis" && cfg[1] != "fixed") {
 		return "bad-case"
 	}
-	fixed := cfg[1] == "fixed"
+	// the mode word only selects the Lean model variant; the harness follows the labels of the real code:
+	// `Store:responseClosed` before the select is build, `Call:Get` is the select, a `Store:responseClosed` after
+	// the select (code before fix d1a16fa) is the late store; an Ask is over when its Do() has returned
 	var progs [][]string
 	for _, p := range strings.Split(parts[1], ";") {
 		progs = append(progs, strings.Fields(p))
@@ -112,22 +114,24 @@ func run(line string) string {
 		if t >= n {
 			i := t - n
 			c := cs[i]
-			if i < n && c.isCaller && !s.Done(i) && c.phase <= 1 {
+			if i < n && c.isCaller && !s.Done(i) && (s.At(i) == "Call:Get" || !c.inAsk) {
 				c.deadline = true
 			}
 			trace = append(trace, fmt.Sprintf("%d:Timeout", t))
 			return
 		}
 		c := cs[t]
-		if c.isCaller && !s.Done(t) && c.phase == 1 {
+		at := s.At(t)
+		if c.isCaller && !s.Done(t) && at == "Call:Get" {
 			if len(c.ch) == 0 {
 				if !c.deadline {
-					trace = append(trace, fmt.Sprintf("%d:%s!blocked", t, s.At(t)))
+					trace = append(trace, fmt.Sprintf("%d:%s!blocked", t, at))
 					return
 				}
 				c.cancel()
 			}
 		}
+		before := len(results[t])
 		l := s.Step(t, vlib.StepTimeout)
 		trace = append(trace, fmt.Sprintf("%d:%s", t, l))
 		if strings.HasSuffix(l, "!stuck") {
@@ -135,20 +139,13 @@ func run(line string) string {
 			return
 		}
 		if c.isCaller && !strings.HasPrefix(l, "!") {
-			switch c.phase {
-			case 0:
+			if !c.inAsk && at != "Call:Get" {
+				// build step: the context has just been enqueued
+				c.inAsk = true
 				c.ch = actor.VerifC15Chan(actor.VerifC15LastEnqueued(target))
-				c.phase = 1
-			case 1:
-				if fixed {
-					c.phase = 0
-					c.deadline = false
-					c.ch = nil
-				} else {
-					c.phase = 2
-				}
-			case 2:
-				c.phase = 0
+			}
+			if len(results[t]) > before {
+				c.inAsk = false
 				c.deadline = false
 				c.ch = nil
 			}
